@@ -58,6 +58,50 @@ def check(ctx):
     ctx.attempt(_staging_tables)
     ctx.attempt(common.config_words, plss=('sec_colon_required', 'sec_colon_cautious', 'segment', 'sec_within'))
     ctx.attempt(common.match_record_roles)
+    ctx.attempt(_need_colon_table)
+
+
+def _need_colon_table(ctx):
+    """Conditional constant propagation through the `need_colon` decision of
+    SecFinder for every (require_colon, layout): a colon is demanded exactly
+    when the layout puts the section before its description AND the mode is
+    True or the cautious first pass; never in the second pass, never for the
+    other layouts."""
+    from .. import ccp
+    from .layouts import layout_classes
+    fi = ctx.repo.func('SecFinder.findall_matching_sec')
+    cl = layout_classes(ctx)
+    g = lambda a: ctx.fold.get_attr('plss_parse', 'SecFinder', a)
+    cautious, second = g('SEC_COLON_CAUTIOUS'), g('SECOND_PASS')
+    construct = 'SecFinder: need_colon for every (require_colon, layout)'
+    names = dict(cl['names'])
+    n = 0
+    first_loop = next((st for st in fi.node.body if isinstance(st, (ast.For, ast.While))), None)
+    for rc_label, rc in (('True', True), ('False', False), ('cautious', cautious), ('second pass', second)):
+        for lname, layout in sorted(names.items()):
+            env = {p: None for p in fi.params()}
+            env.update(names)
+            env.update({'require_colon': rc, 'layout': layout,
+                        'self': ccp.Obj(SEC_COLON_CAUTIOUS=cautious, SECOND_PASS=second,
+                                        _methods={m_.node.name: m_.node for m_ in ctx.repo.cls('plss_parse:SecFinder').methods.values()})})
+            try:
+                out = ccp.run_slice(fi.node, ['need_colon'], env, stop_at=first_loop)
+            except ccp.Unsupported as e:
+                ctx.undecided('TBL', construct, f"not propagated ({e})")
+                return
+            if 'need_colon' not in out:
+                ctx.undecided('TBL', construct, 'need_colon is not computed before the scan loop')
+                return
+            got = bool(out['need_colon'])
+            want = layout in cl['s_desc'] and (rc is True or rc == cautious)
+            n += 1
+            ctx.check(got == want, 'TBL', f"{construct}: require_colon={rc_label}, layout={layout} -> {want}", f"{got}",
+                      f"with require_colon={rc_label} and layout {layout} a colon is {'demanded' if got else 'not demanded'} "
+                      f"but should {'not ' if not want else ''}be: "
+                      + ("sections without a colon are accepted although the user required one" if want else
+                         "sections without a colon are ignored in a layout / pass where the colon must not matter"),
+                      key=f"TBL|SecFinder|need_colon|{rc_label}|{layout}", where=fi.loc)
+    ctx.floor('need_colon cases', n, 12)
 
 
 def _colon(ctx):
